@@ -11,18 +11,18 @@
      - global variables only mention nodes of the initial graph g0, and g0 only mentions its own nodes (gclosed);
      - no debug attributes (config0): with a location attribute an edge created by two stanzas keeps the attribute of the statement evaluated FIRST, so the property is false as stated;
      - no cancellation budget;
-     - the execution phase of the permuted list succeeds with the SAME fuel; its evaluation phase succeeds from some evaluation fuel on (run_lazy2: separate fuels;
-       the needed evaluation fuel does depend on the order in the model, because a thunk may be forced first at a deeper nesting).
+     - fuel: lazy_block_order_iso_partial says that the permuted run succeeds FROM SOME FUEL ON (the fuel needed does depend on the order in the model: a thunk may be
+       forced first at a deeper nesting); lazy_block_order_fail_partial: an error or a panic for one order excludes success for every other order at every fuel;
+       lazy_fuel_mono_partial: a run that does not run out of fuel has the same outcome at every larger fuel.
    The graphs are related by graph_iso r: r is a bijection of node ids fixing the nodes of g0, node i corresponds to node r i, attribute maps are equal as maps
    after renaming the node references inside values, each edge vector holds the renamed sinks with equal attribute maps.
    Parts: STEP 1 lazy_block_shift_partial / lazy_block_swap_partial (one block started at other sizes appends the same delta with shifted ids; adjacent transposition),
    STEP 2 lazy_exec_phase_perm_partial (any permutation of the execution phase: the blocks' canonical deltas laid out in list order, all configurations),
    lazy_eval_extract_partial (a successful lazy evaluation phase read back as store valuation + graph operations), STEP 3 lazy_block_order_iso_partial.
    Earlier theorems (kept): scoped-variable forcing and the deferred graph operations are order independent.
-   NOT proved: blocks that communicate through scoped variables (fragment v2); the statement with a single fuel parameter (needs fuel monotonicity of the
-   execution phase); debug attributes up to the location attribute of multiply-created edges. *)
+   NOT proved: blocks that communicate through scoped variables (fragment v2); debug attributes up to the location attribute of multiply-created edges. *)
 From TSG Require Import Model.Lazy Model.Run Model.Stdlib Proofs.Scoped Proofs.PermFacts Proofs.SLGraph Proofs.SLForce Proofs.SLExpr Proofs.SLStmt Proofs.StrictLazy Proofs.EvalPerm Proofs.EvalPermLazy
-  Proofs.BlockPermRen Proofs.BlockPermSim Proofs.BlockPermSwap Proofs.BlockPermExec Proofs.BlockPermDen Proofs.BlockPermGraph Proofs.BlockPermEval Proofs.BlockPermStd Proofs.BlockPermExample.
+  Proofs.BlockPermRen Proofs.BlockPermSim Proofs.BlockPermSwap Proofs.BlockPermExec Proofs.BlockPermDen Proofs.BlockPermGraph Proofs.BlockPermEval Proofs.BlockPermStd Proofs.BlockPermExample Proofs.BlockPermFuel Proofs.BlockPermRun.
 From Coq Require Import Permutation.
 
 (* forcing the definitions collected for one scoped-variable name: whether it succeeds (no duplicate
@@ -174,9 +174,8 @@ Theorem lazy_eval_extract_partial : forall (t : tree) (fl : file) (call : ident 
     denotes call s rho eops aopss /\ apply_edges eops (l_graph s) = Some g1 /\ apply_attrs (concat aopss) g1 = Some (l_graph fin).
 Proof. exact eval_extract. Qed.
 
-(* STEPS 1-3: the whole run.  Read both ways (Permutation is symmetric): if one order succeeds (with some evaluation fuel), the other order
-   succeeds for every large enough evaluation fuel, with an isomorphic graph; so an order that fails for all fuels makes every order fail. *)
-Theorem lazy_block_order_iso_partial : forall (rx : Type) (t : tree) (fl : file) (supplied : globals) (regexes : list rx)
+(* STEPS 1-3 with separate fuels: same execution fuel, every large enough evaluation fuel *)
+Theorem lazy_block_order_iso_two_fuels_partial : forall (rx : Type) (t : tree) (fl : file) (supplied : globals) (regexes : list rx)
     (find : rx -> str -> option (list (option (N * N)))) (call : ident -> graph -> list value -> res (value * graph))
     (okfn : ident -> Prop) (fuel : nat) (ms ms' : list (N * qmatch)) (g0 : graph) (ls : lstate) (p : polls),
   (forall f, okfn f -> call_ok call f) -> gclosed (N.of_nat (length g0)) g0 ->
@@ -192,6 +191,41 @@ Proof. exact @lazy_run_perm. Qed.
 Theorem run_lazy_two_fuels : forall (rx : Type) t fl cfg supplied budget (regexes : list rx) find call fuel ms g0,
   run_lazy t fl cfg supplied budget regexes find call fuel ms g0 = run_lazy2 t fl cfg supplied budget regexes find call fuel (fuel + default_eval_fuel) ms g0.
 Proof. exact @run_lazy_2. Qed.
+
+(* a run that does not run out of fuel has the same outcome at every larger fuel (all programs, all configurations) *)
+Theorem lazy_fuel_mono_partial : forall (rx : Type) t fl cfg supplied budget (regexes : list rx) find call F F' ms g0, (F <= F')%nat ->
+  run_lazy t fl cfg supplied budget regexes find call F ms g0 = OutOfFuel \/
+  run_lazy t fl cfg supplied budget regexes find call F ms g0 = run_lazy t fl cfg supplied budget regexes find call F' ms g0.
+Proof. exact @run_lazy_fuel_mono. Qed.
+
+(* THE WHOLE-RUN THEOREM on the fragment: if the run on ms succeeds, then from some fuel on the run on any permutation ms' succeeds, and the graphs are
+   isomorphic under a renumbering of the graph nodes that fixes the nodes of the initial graph *)
+Theorem lazy_block_order_iso_partial : forall (rx : Type) (t : tree) (fl : file) (supplied : globals) (regexes : list rx)
+    (find : rx -> str -> option (list (option (N * N)))) (call : ident -> graph -> list value -> res (value * graph)) (okfn : ident -> Prop),
+  (forall f, okfn f -> call_ok call f) ->
+  forall g0 : graph, gclosed (N.of_nat (length g0)) g0 ->
+  (forall glob, check_globals (f_globals fl) (globals_nested supplied) = Ok glob ->
+     forall name v, globals_get glob name = Some v -> vall (fun i => i < N.of_nat (length g0)) v) ->
+  forall (fuel : nat) (ms ms' : list (N * qmatch)) (ls : lstate) (p : polls),
+  Permutation ms ms' -> Forall (pm_ok fl okfn) ms ->
+  run_lazy t fl config0 supplied None regexes find call fuel ms g0 = Ok (ls, p) ->
+  exists r r', (forall i, r' (r i) = i) /\ (forall i, r (r' i) = i) /\ (forall i, i < N.of_nat (length g0) -> r i = i) /\
+    exists fuel0, forall fuel', (fuel0 <= fuel')%nat -> exists ls' p',
+      run_lazy t fl config0 supplied None regexes find call fuel' ms' g0 = Ok (ls', p') /\ graph_iso r (l_graph ls) (l_graph ls').
+Proof. exact @lazy_run_perm_fuel. Qed.
+(* ... and the failure direction: an error or a panic for one order excludes success for every other order, whatever the fuel *)
+Theorem lazy_block_order_fail_partial : forall (rx : Type) (t : tree) (fl : file) (supplied : globals) (regexes : list rx)
+    (find : rx -> str -> option (list (option (N * N)))) (call : ident -> graph -> list value -> res (value * graph)) (okfn : ident -> Prop),
+  (forall f, okfn f -> call_ok call f) ->
+  forall g0 : graph, gclosed (N.of_nat (length g0)) g0 ->
+  (forall glob, check_globals (f_globals fl) (globals_nested supplied) = Ok glob ->
+     forall name v, globals_get glob name = Some v -> vall (fun i => i < N.of_nat (length g0)) v) ->
+  forall (fuel : nat) (ms ms' : list (N * qmatch)),
+  Permutation ms ms' -> Forall (pm_ok fl okfn) ms ->
+  (forall r, run_lazy t fl config0 supplied None regexes find call fuel ms g0 <> Ok r) ->
+  run_lazy t fl config0 supplied None regexes find call fuel ms g0 <> OutOfFuel ->
+  forall fuel' r, run_lazy t fl config0 supplied None regexes find call fuel' ms' g0 <> Ok r.
+Proof. exact @lazy_run_perm_fail. Qed.
 
 (* the hypothesis on function calls holds for the standard library, `node`, `format` and `join` excepted *)
 Theorem stdlib_call_ok_partial : forall rxo t f, (forall fn, fn_of_name f = Some fn -> fn_ok fn) -> call_ok (stdlib_call rxo t) f.
